@@ -192,16 +192,26 @@ Definition in_interval (iv : Z * Z * Z * bool) (cn cd : Z) : bool :=   (* cn/cd 
   if incl then (lo * cd <=? cn * den) && (cn * den <=? hi * cd)
   else (lo * cd <? cn * den) && (cn * den <? hi * cd).
 
-(* try precisions p = 1 .. : digits q (integer with p digits, or 10^p) and exponent k10 *)
+(* try precisions p = 1, 2, ...: with p digits the two candidates are the truncation q0 of
+   v*10^j and q0+1; Rust's shortest-digits generation accepts whichever lies inside the
+   rounding interval of v (both: the nearer one, an exact tie going up) *)
 Fixpoint shortest (fuel : nat) (p : Z) (a b k10 : Z) (iv : Z * Z * Z * bool) : Z * Z :=
   let j := p - 1 - k10 in
   let '(sa, sb) := pow10_scale a b j in
-  let q := rne sa sb in
-  (* candidate = q * 10^(-j) *)
-  let '(cn, cd) := if 0 <=? j then (q, 10 ^ j) else (q * 10 ^ (- j), 1) in
+  let q0 := sa / sb in
+  let r := sa mod sb in
+  let q1 := q0 + 1 in
+  let cand (q : Z) := if 0 <=? j then (q, 10 ^ j) else (q * 10 ^ (- j), 1) in
+  let in0 := let '(cn, cd) := cand q0 in in_interval iv cn cd in
+  let in1 := let '(cn, cd) := cand q1 in in_interval iv cn cd in
+  let up := sb <=? 2 * r in
   match fuel with
-  | O => (q, j)
-  | S f => if in_interval iv cn cd then (q, j) else shortest f (p + 1) a b k10 iv
+  | O => (if up then q1 else q0, j)
+  | S f =>
+      if in0 && in1 then (if up then q1 else q0, j)
+      else if in0 then (q0, j)
+      else if in1 then (q1, j)
+      else shortest f (p + 1) a b k10 iv
   end.
 
 Fixpoint strip_zeros (fuel : nat) (q j : Z) : Z * Z :=   (* drop trailing decimal zeros *)
